@@ -406,7 +406,7 @@ func run(c *core.Child) {
 func (k *ck) typed() {
 	c := k.c
 	nSchemas := c.Scale(6, 30)
-	nDocs := c.Scale(36, 110)
+	nDocs := c.Scale(30, 110)
 	nops := len(invaliddoc.Operators)
 	for si := 0; si < nSchemas; si++ {
 		sr := c.RNG(1, uint64(si))
